@@ -283,21 +283,27 @@ func runC45(r *Report) {
 		r.Ob("R45", fn, "binary-string-is-the-slice", fn.Pos(), ok, "BinaryString is unsafe.String over the slice's own data pointer and length")
 	}
 	if fn := r.FnAnchor("R45", "rueidis.JSON"); fn != nil {
-		ok := false
+		ok := true
+		nRet := 0
 		for _, b := range fn.Blocks {
 			if ret, isr := b.Instrs[len(b.Instrs)-1].(*ssa.Return); isr {
+				nRet++
+				good := false
 				rc, isc := ret.Results[0].(*ssa.Call)
 				if isc && CalleeName(rc) == "rueidis.BinaryString" {
 					if ex, isex := rc.Call.Args[0].(*ssa.Extract); isex && ex.Index == 0 {
 						if mc, ism := ex.Tuple.(*ssa.Call); ism && CalleeName(mc) == "encoding/json.Marshal" && Desc(mc.Call.Args[0]) == "p0" {
-							ok = true
+							good = true
 						}
 					}
+				}
+				if !good {
+					ok = false
 				}
 			}
 		}
 		pan := len(Sites(fn, func(in ssa.Instruction) bool { _, ok := in.(*ssa.Panic); return ok })) == 1
-		r.Ob("R45", fn, "json-is-marshal", fn.Pos(), ok && pan, "JSON returns the bytes of json.Marshal(in) and panics when marshalling fails")
+		r.Ob("R45", fn, "json-is-marshal", fn.Pos(), ok && nRet >= 1 && pan, "every result of JSON is the bytes of json.Marshal(in); it panics when marshalling fails")
 	}
 }
 
